@@ -198,6 +198,10 @@ def __not_macro_factory(
     return [new_token]
 
 
+_deferred_expansion_depth = 0
+"""How many expansions of '#deepdefine' macros are in progress (one inside the other)"""
+
+
 def __create_macro_factory(
     replaced_tokens: list[Token],
     parameters_token: Token | None,
@@ -246,6 +250,32 @@ def __create_macro_factory(
             template_tokens.append(token)
 
     def macro_factory(argument_tokens: list[Token], line: int, col: int) -> list[Token]:
+        global _deferred_expansion_depth
+        if reapplier is None:
+            return _expand(argument_tokens, line, col)
+        # The expansion of a '#deepdefine' macro is tokenized again with every macro active,
+        # so a macro that refers to itself (directly or through another one) never stops expanding
+        _deferred_expansion_depth += 1
+        try:
+            return _expand(argument_tokens, line, col)
+        except RecursionError:
+            if _deferred_expansion_depth > 1:
+                raise
+            header_lines = reapplier.header_str.split("\n")
+            raise HeaderSyntaxException(
+                f"Expansion of macro '{key}' is nested too deeply (a '#deepdefine' macro that refers to itself never stops expanding)",
+                reapplier.file_name,
+                reapplier.line,
+                (
+                    header_lines[reapplier.line - 1]
+                    if 0 < reapplier.line <= len(header_lines)
+                    else ""
+                ),
+            )
+        finally:
+            _deferred_expansion_depth -= 1
+
+    def _expand(argument_tokens: list[Token], line: int, col: int) -> list[Token]:
         def _replace_token(token: Token) -> str:
             for index, parameter_token in enumerate(parameter_tokens):
                 if (
